@@ -33,6 +33,9 @@ inductive PV
   | dtype (w : Option W)
   | pynone
   | err (e : String)
+  /-- an object of a translated class: class name and (up to three) attribute values in the order of the class's attribute
+  table (unused slots are `pynone`) -/
+  | obj (cls : String) (a b c : PV)
   deriving DecidableEq, Repr, Inhabited
 
 namespace PV
@@ -174,6 +177,7 @@ def truthy : PV → Bool
   | uns _ n => n != 0
   | str s => s != ""
   | dtype _ => true
+  | obj _ _ _ _ => true
   | _ => false
 
 def not : PV → PV
@@ -198,6 +202,14 @@ def ite (c t e : PV) : PV := match c with | err s => err s | _ => if truthy c th
 /-- `if c: t else: e` for functions returning a tuple / object / effect list -/
 def iteL (c : PV) (t e : List PV) : List PV :=
   match c with | err s => [err s] | _ => if truthy c then t else e
+
+/-- in a state-changing method: an exception raised while evaluating `v` leaves the state `st` reached so far -/
+def guardL (v : PV) (st : List PV) (k : List PV) : List PV :=
+  match v with | err e => err e :: st | _ => k
+
+/-- `if c: t else: e` in a state-changing method (an exception in the test keeps the state `st`) -/
+def iteLS (c : PV) (st : List PV) (t e : List PV) : List PV :=
+  match c with | err s => err s :: st | _ => if truthy c then t else e
 
 /-- Python's `max(a, b)`: `b` if `b > a` else `a` -/
 def max2 (a b : PV) : PV := ite (gt b a) b a
@@ -320,6 +332,12 @@ def listExtend (a b : PV) : PV :=
   | _, err e => err e
   | arr w xs, arr _ ys => arr w (xs ++ ys)
   | _, _ => err "TypeError"
+
+/-- build an object from the attribute list its `__init__` produced -/
+def mkObj (cls : String) (attrs : List PV) : PV :=
+  match attrs with
+  | [err e] => err e
+  | _ => obj cls (attrs.getD 0 pynone) (attrs.getD 1 pynone) (attrs.getD 2 pynone)
 
 /-- `boolarray.view(np.uint8)` -/
 def viewU8 : PV → PV
